@@ -1,10 +1,12 @@
 pub mod echo;
+pub mod edit;
 
 pub type LaneFn = fn(&str) -> String;
 
 pub fn find(name: &str) -> Option<LaneFn> {
     Some(match name {
         "echo" => echo::run,
+        "edit" => edit::run,
         _ => return None,
     })
 }
